@@ -117,3 +117,41 @@ def shrink(exe, text, nprocs, wd, still_fails, env=None, budget=60):
             if runs >= budget:
                 break
     return '\n'.join(l for st in cur for l in st[1]) + '\n'
+
+
+def run_programs(V, exe, wd, progs, tier, sig, desc, maxfail=3, tagprefix='mix'):
+    """run generated programs (iterable of (Prog, nprocs)) on the implementation and the specification; on a
+    disagreement shrink and report a failing input.  -> (result lines, tag histogram, number of failures)"""
+    nlines, tags, nfail, nprog = 0, {}, 0, 0
+    for p, nprocs in progs:
+        nprog += 1
+        text = p.text()
+        rc, impl, spec, err = run_both(exe, text, nprocs, wd, tag='%s%d' % (tagprefix, nprog))
+        mism = compare(spec, impl)
+        bv = buffer_violations(impl)
+        nlines += len(impl)
+        for t in p.tags:
+            tags[t] = tags.get(t, 0) + 1
+        if rc != 0 or mism or bv:
+            if nprocs > 1:
+                # multi-rank runs are rerun once: a disagreement that does not repeat is scheduling noise of the harness
+                rc, impl, spec, err = run_both(exe, text, nprocs, wd, tag='%s%dr' % (tagprefix, nprog))
+                if rc == 0 and not compare(spec, impl) and not buffer_violations(impl):
+                    tags['rerun-clean'] = tags.get('rerun-clean', 0) + 1
+                    continue
+
+            def still(t, nprocs=nprocs):
+                rc2, i2, s2, _ = run_both(exe, t, nprocs, wd, tag='shr')
+                return rc2 != 0 or bool(compare(s2, i2)) or bool(buffer_violations(i2))
+            small = shrink(exe, text, nprocs, wd, still, budget=40 if tier == 'quick' else 120)
+            rc3, i3, s3, e3 = run_both(exe, small, nprocs, wd, tag='shr')
+            m3 = compare(s3, i3)
+            what = ('rc=%s ' % rc3) + ('; '.join('spec[%s] impl[%s]' % (a[1], a[2]) for a in m3[:3])) + (' buffer:%s' % buffer_violations(i3)[:2])
+            if V.failing_input(sig, desc + ': ' + what[:600],
+                               dict(script=small, nprocs=nprocs, mismatches=m3[:5], rc=rc3, stderr=e3[-400:],
+                                    replay='mpiexec -n %d apirun <script> out ; lean/.lake/build/bin/apidrv <script> %d' % (nprocs, nprocs)),
+                               tag='%s%d' % (tagprefix, nfail)):
+                nfail += 1
+            if nfail >= maxfail:
+                break
+    return nlines, tags, nfail, nprog
